@@ -153,6 +153,7 @@ Qed.
 Lemma CInv_batch_write c reqs : CInv c -> CInv (fst (batch_write lang_match flavour c reqs)).
 Proof.
   intros H. unfold batch_write. destruct (v1_empty_batch flavour c reqs); [exact H|]. unfold batch_write_core.
+  destruct (forced_blocks c); [exact H|].
   destruct (_ && negb (forallb wreq_ok (flat_map snd reqs))); [exact H|].
   destruct (_ && (batch_limit <? List.length (flat_map snd reqs))); [exact H|].
   destruct (match c_failure c with Some _ => [] | None => flat_map (prevalidate_table c) reqs end); [|exact H].
